@@ -287,7 +287,7 @@ theorem for2_foldS (sc : Sc) (xp : Int) (query : List Nat) (r0 : BRow) (v r n : 
 /-- operations of the cells `off, off+1, …` of the Rust row of node `v` (band starting at column 0): locally fine (`RowOpX`), and
 nothing query-consuming in column 0 -/
 def CellOK (es : WEdges) (L v j : Nat) (op : POp) : Prop :=
-  RowOpX es L v j op ∧ (j = 0 → op = .d none ∨ ∃ r, op = .x r) ∧ ∀ c d, op = .y c d → c ≤ j
+  RowOpX es L v j op ∧ (j = 0 → op = .d none ∨ ∃ r, op = .x r) ∧ ∀ c d, op = .y c d → c ≤ j ∧ d = j
 
 def OffOK (es : WEdges) (L v off : Nat) (cs : List Cell) : Prop :=
   ∀ k c, cs[k]? = some c → CellOK es L v (off + k) c.op
@@ -298,7 +298,7 @@ theorem cellOp_noY (prevs : List Nat) (v : Nat) (op : POp) (h : CellOp prevs v o
 /-- the operations stored in the Rust matrix are local (tie-independent: whatever a `max` kept) -/
 structure OInv (es : WEdges) (L : Nat) (M : List Row) : Prop where
   r0 : ∃ cs e, M[0]? = some (cs, 0, e) ∧ 0 < e ∧ e ≤ cs.length ∧
-    ∀ k c, cs[k]? = some c → (c.op = .m none ∧ k = 0) ∨ c.op = .i none ∨ ∃ d, c.op = .y 0 d
+    ∀ k c, cs[k]? = some c → (c.op = .m none ∧ k = 0) ∨ c.op = .i none ∨ c.op = .y 0 k
   rows : ∀ v cs s e, M[v + 1]? = some (cs, s, e) → s = 0 ∧ OffOK es L v 0 cs
 
 theorem cellOp_rowOpX (es : WEdges) (L v k : Nat) (op : POp) (hk : 0 < k) (h : CellOp (inN es v) v op) : RowOpX es L v k op := by
@@ -748,13 +748,17 @@ theorem xSuffixC_mir_le (xs : Int) (lastI N : Nat) : ∀ (mcs : List (Int × Nat
             · exact hm) (by omega)
 
 theorem mapC_row0Cell_ops (gap yclip : Int) : ∀ (l : List Nat) (cs : List Cell), mapC (row0Cell gap yclip) l = some cs →
-    ∀ c ∈ cs, c.op = .i none ∨ ∃ d, c.op = .y 0 d
-  | [], cs, h => by simp only [mapC, Option.some.injEq] at h; subst h; simp
+    ∀ (k : Nat) (c : Cell), cs[k]? = some c → ∃ j, l[k]? = some j ∧ (c.op = .i none ∨ c.op = .y 0 j)
+  | [], cs, h => by simp only [mapC, Option.some.injEq] at h; subst h; intro k c hc; simp at hc
   | j :: l, cs, h => by
     obtain ⟨b, bs, h1, h2, rfl⟩ := mapC_cons_some h
-    intro c hc
-    rcases List.mem_cons.mp hc with rfl | hc
-    · unfold row0Cell at h1
+    intro k c hc
+    cases k with
+    | zero =>
+      simp only [List.getElem?_cons_zero, Option.some.injEq] at hc
+      subst hc
+      refine ⟨j, rfl, ?_⟩
+      unfold row0Cell at h1
       cases hg : I32.mul gap (I32.ofUsize j) with
       | none => rw [hg] at h1; cases h1
       | some g =>
@@ -763,11 +767,13 @@ theorem mapC_row0Cell_ops (gap yclip : Int) : ∀ (l : List Nat) (cs : List Cell
         rw [← h1]
         rcases cmax_op (⟨g, .i none⟩ : Cell) ⟨yclip, .y 0 j⟩ with e | e
         · left; rw [e]
-        · right; exact ⟨j, by rw [e]⟩
-    · exact mapC_row0Cell_ops gap yclip l bs h2 c hc
+        · right; rw [e]
+    | succ k =>
+      simp only [List.getElem?_cons_succ] at hc ⊢
+      exact mapC_row0Cell_ops gap yclip l bs h2 k c hc
 
 theorem bRow0C_ops {gap yclip : Int} {n : Nat} {r0 : BRow} (h : bRow0C gap yclip n = some r0) :
-    ∀ k c, r0.cells[k]? = some c → (c.op = .m none ∧ k = 0) ∨ c.op = .i none ∨ ∃ d, c.op = .y 0 d := by
+    ∀ k c, r0.cells[k]? = some c → (c.op = .m none ∧ k = 0) ∨ c.op = .i none ∨ c.op = .y 0 k := by
   have hb : bRow0C gap yclip n = (match I32.mul gap (I32.ofUsize 0) with
       | none => none
       | some _ => match mapC (row0Cell gap yclip) (List.range' 1 n) with
@@ -790,7 +796,19 @@ theorem bRow0C_ops {gap yclip : Int} {n : Nat} {r0 : BRow} (h : bRow0C gap yclip
       | zero => simp only [List.getElem?_cons_zero, Option.some.injEq] at hk; left; rw [← hk]; exact ⟨rfl, rfl⟩
       | succ k =>
         simp only [List.getElem?_cons_succ] at hk
-        right; exact mapC_row0Cell_ops gap yclip _ cs h1 c (List.mem_of_getElem? hk)
+        obtain ⟨j, hj, hop⟩ := mapC_row0Cell_ops gap yclip _ cs h1 k c hk
+        have hjk : j = k + 1 := by
+          have hm := List.mem_of_getElem? hj
+          have hlt : k < (List.range' 1 n).length := by
+            rcases Nat.lt_or_ge k (List.range' 1 n).length with h' | h'
+            · exact h'
+            · rw [List.getElem?_eq_none h'] at hj; cases hj
+          rw [List.getElem?_eq_getElem hlt, List.getElem_range'] at hj
+          simp only [Option.some.injEq] at hj; omega
+        right
+        rcases hop with e | e
+        · left; exact e
+        · right; rw [e, hjk]
 
 /-- **the translated `Poa::custom` reports the score of the checked-`i32` mirror** (decomposed form of `customTableC = some t`) -/
 theorem custom_score_core (sc : Sc) (xp xs yp ys : Int) (labels : List Nat) (es : WEdges) (query : List Nat) (r0 : BRow)
@@ -808,7 +826,7 @@ theorem custom_score_core (sc : Sc) (xp xs yp ys : Int) (labels : List Nat) (es 
       some (cells1, mir))
     (hy : I32.add mir.1 ys = some s) :
     ∃ tb, custom sc.w ⟨labels, es⟩ sc.gap xp xs yp ys query = ok tb ∧ tb.last = (topo labels.length es).getLastD 0 ∧
-      tb.cols = query.length ∧ tb.rows = labels.length ∧
+      tb.cols = query.length ∧ tb.rows = labels.length ∧ tb.matrix.length = labels.length + 1 ∧
       (0 < query.length → OInv es ((topo labels.length es).getLastD 0) tb.matrix) ∧
       ∃ c, Traceback_get tb ((topo labels.length es).getLastD 0 + 1) query.length = ok c ∧
         c.score = (if mir.2 ≠ query.length then cmax (cells1.getD query.length mcell) ⟨s, .y mir.2 query.length⟩
@@ -927,6 +945,7 @@ theorem custom_score_core (sc : Sc) (xp xs yp ys : Int) (labels : List Nat) (es 
     hg41, iadd32_some hy]
   by_cases hmn : mir.2 = n
   · refine ⟨tb2, by simp [hmn, hne, Rs.assert], hlast2, by rw [← htb2, ec1], by rw [← htb2, er1],
+      by rw [hmat2]; simp [hinv1.len, hsz1],
       fun _ => by rw [hmat2]; exact hOset _ (offOK_append es L L 0 _ _ eoff hdropok), c41, hg41, ?_⟩
     simp [hmn, hc41s]
   · have hsetl : (restS ++ csL.drop (n + 1)).set n (cmax c41 ⟨s, .y mir.2 n⟩) =
@@ -938,6 +957,7 @@ theorem custom_score_core (sc : Sc) (xp xs yp ys : Int) (labels : List Nat) (es 
       simp only [Nat.sub_zero, hsetl]
     refine ⟨{ tb2 with matrix := tb2.matrix.set (L + 1) (restS.set n (cmax c41 ⟨s, .y mir.2 n⟩) ++ csL.drop (n + 1), 0, n + 1) },
       by simp [hmn, hset, hne, Rs.assert], hlast2, by rw [← htb2, ec1], by rw [← htb2, er1],
+      by simp [hmat2, hinv1.len, hsz1],
       fun hn0 => by
         simp only [hmat2, List.set_set]
         refine hOset _ (offOK_append es L L 0 _ _ (offOK_set es L L 0 restS n _ eoff ?_) (by simpa using hdropok))
@@ -946,7 +966,7 @@ theorem custom_score_core (sc : Sc) (xp xs yp ys : Int) (labels : List Nat) (es 
         · rw [hh]; have := eoff n c41 hc41; simpa using this
         · rw [hh]
           exact ⟨Or.inr (Or.inr (Or.inr (Or.inr ⟨rfl, Or.inr ⟨by omega, mir.2, n, rfl⟩⟩))), fun h0 => by omega,
-            fun c d hy => by cases hy; exact hmirle⟩,
+            fun c d hy => by cases hy; exact ⟨hmirle, rfl⟩⟩,
       cmax c41 ⟨s, .y mir.2 n⟩, ?_, ?_⟩
     · rw [get_inband _ (L + 1) n (restS.set n (cmax c41 ⟨s, .y mir.2 n⟩) ++ csL.drop (n + 1)) 0 (n + 1)
         (by simp only; exact set_get_self hrow2) (by omega) (by omega) (by simp; omega)]
@@ -1020,7 +1040,7 @@ theorem custom_score_eq_model (sc : Sc) (xp xs yp ys : Int) (labels : List Nat) 
     (hg : GraphOK labels es) (hm : labels.length + 1 < 2 ^ 64) (hn : query.length + 1 < 2 ^ 64)
     (h : customTableC sc xp xs yp ys labels es query = some t) :
     ∃ tb, custom sc.w ⟨labels, es⟩ sc.gap xp xs yp ys query = ok tb ∧ tb.last = t.last ∧ tb.cols = t.n ∧ tb.rows = labels.length ∧
-      (0 < query.length → OInv es t.last tb.matrix) ∧
+      tb.matrix.length = labels.length + 1 ∧ (0 < query.length → OInv es t.last tb.matrix) ∧
       ∃ c, Traceback_get tb (tb.last + 1) tb.cols = ok c ∧ c.score = t.score := by
   unfold customTableC at h
   simp only at h
@@ -1048,7 +1068,7 @@ theorem custom_score_eq_model (sc : Sc) (xp xs yp ys : Int) (labels : List Nat) 
         | some s =>
           rw [hy] at h
           simp only [Option.some.injEq] at h
-          obtain ⟨tb, e, el, ec, er, hO, c, hc, hcs⟩ := custom_score_core sc xp xs yp ys labels es query r0 st cells1 mir s hg.ne hm hn
+          obtain ⟨tb, e, el, ec, er, hml, hO, c, hc, hcs⟩ := custom_score_core sc xp xs yp ys labels es query r0 st cells1 mir s hg.ne hm hn
             hg.preds hg.nodup hg.lt hg.topo_ne h0 hst hx hy
           have hsz : st.rows.size = labels.length := by
             have hfold : ∀ (order : List Nat) (a b : CState), foldlC (cStepC sc xp labels es query r0) a order = some b →
@@ -1069,7 +1089,7 @@ theorem custom_score_eq_model (sc : Sc) (xp xs yp ys : Int) (labels : List Nat) 
             rw [hfold _ _ _ hst]; simp
           have hL : (topo labels.length es).getLastD 0 < labels.length := hg.lt _ (getLastD_mem _ _ hg.topo_ne)
           subst h
-          refine ⟨tb, e, el, ec, er, hO, c, by rw [el, ec]; exact hc, ?_⟩
+          refine ⟨tb, e, el, ec, er, hml, hO, c, by rw [el, ec]; exact hc, ?_⟩
           rw [hcs]
           simp only [BTable.score, BTable.cell, Nat.add_sub_cancel, Nat.add_one_ne_zero, if_false]
           have hget : (st.rows.setIfInBounds ((topo labels.length es).getLastD 0)
